@@ -303,3 +303,49 @@ def check(run, prog, tier):
                                     fresh = False
             run.ob("C20-c", "fresh:%s:%d" % (fname, j), fresh, "init_object(%s) on the object just returned by get_empty_object" % show(a0) if fresh else "init_object argument %s is not a fresh allocation" % show(a0),
                    f.file, n.get("l"), fname, what="init_object/give_uid_to_object applied to an existing object in %s" % fname)
+
+    # ---- C20-d a uid record that objects point at is not renamed
+    run.rule("C20-d", "objects hold pointers to shared userid_t records, so renaming a record renames the uid and euid of every object that has it: userid_t.name is stored only by add_uid() (a new record) and by set_root_uid()/set_backbone_uid(), and those two are called only under a test that this is the first load of the master object (a flag taken from `!master_ob` before the new master is installed)", 3)
+    nd = 0
+    renamers = set()
+    for f in sorted(prog.functions(), key=lambda x: (x.file, x.line)):
+        for b, i, n in f.nodes():
+            if n.get("k") == "Asg" and strip(n["L"]).get("k") == "Mem" and strip(n["L"]).get("f") == "name" and "userid" in (strip(n["L"]).get("rec") or ""):
+                nd += 1
+                run.saw(f)
+                creating = any(c.get("fn") in ("ALLOCATE", "xalloc", "DXALLOC", "DMALLOC", "malloc", "calloc") or "alloc" in (c.get("fn") or "").lower() for b2, i2, c in f.calls())
+                callers = {g.name for g in prog.functions() for b2, i2, c in g.calls(f.name)}
+                helper_of = f.static and callers and callers <= {"set_root_uid", "set_backbone_uid"}
+                okc = creating or f.name in ("set_root_uid", "set_backbone_uid") or helper_of
+                if f.name in ("set_root_uid", "set_backbone_uid"):
+                    renamers.add(f.name)
+                run.ob("C20-d", "name-store:%s" % f.name, okc, "%s stores the name of a %s" % (f.name, "record it has just allocated" if creating else ("well-known record on behalf of set_root_uid()/set_backbone_uid()" if helper_of else "well-known record (callers checked below)")) if okc else
+                       "%s() renames an existing uid record (line %s): every object holding it changes its uid/euid without export_uid/seteuid" % (f.name, n.get("l")), f.file, n.get("l"), f.name,
+                       what="%s renames a shared uid record" % f.name)
+    for f in sorted(prog.functions(), key=lambda x: (x.file, x.line)):
+        k = 0
+        for b, i, n in f.calls():
+            if n.get("fn") not in ("set_root_uid", "set_backbone_uid"):
+                continue
+            nd += 1
+            run.saw(f)
+            # guarded by a flag whose only definition is `!master_ob` (or master_ob == 0), or by that test itself
+            first = False
+            for c, t, gb in cfgq.guards(f, b.id):
+                c0 = strip(c)
+                if c0.get("k") == "Ref" and c0.get("d") == "local" and t:
+                    defs = [v["init"] for b2, i2, n2 in f.nodes() if n2.get("k") == "Decl" for v in n2.get("vars", ()) if v.get("id") == c0.get("id") and isinstance(v.get("init"), dict)]
+                    defs += [n2["R"] for b2, i2, n2 in f.nodes() if n2.get("k") == "Asg" and n2.get("op") == "=" and strip(n2["L"]).get("id") == c0.get("id")]
+                    if len(defs) == 1:
+                        e, tt = normalize_cond(defs[0], True)
+                        e = strip(e)
+                        if (e.get("k") == "Ref" and e.get("n") == "master_ob" and not tt) or (e.get("k") == "Bin" and e.get("op") == "==" and strip(e["L"]).get("n") == "master_ob" and const_val(e["R"]) == 0 and tt):
+                            first = True
+                e, tt = normalize_cond(c, t)
+                if strip(e).get("k") == "Ref" and strip(e).get("n") == "master_ob" and not tt:
+                    first = True
+            run.ob("C20-d", "rename-call:%s:%s:%d" % (f.name, n["fn"], k), first, "%s() is called only when this is the first load of the master object" % n["fn"] if first else
+                   "%s() at line %s is not under the first-load test: on a reload of the master it renames the record that existing root objects point at, their uid and euid change with it" % (n["fn"], n.get("l")), f.file, n.get("l"), f.name,
+                   what="%s calls %s() on a reload of the master object: every object holding the old root/backbone uid is renamed" % (f.name, n["fn"]))
+            k += 1
+    run.need(nd >= 3, "uid record name stores and rename calls (found %d)" % nd)
